@@ -51,6 +51,19 @@ fn check_day(ctx: &Ctx, civ: &Civil, ord: usize, first_term_day: usize, loc: &mu
       Err(m) => ctx.violation("pillar_sixty", fmt_ymd(d), format!("get_sixty_cycle_day panics: {}", m), rp),
     }
   }
+  // the weekday of an instant is the weekday of its civil day: 06:00, noon, 18:00 and 23:59:59
+  {
+    let r = guard(|| [0.25f64, 0.5, 0.75, 86399.0 / 86400.0].iter().map(|f| JulianDay::from_julian_day(JD0 + ord as f64 + f).get_week().get_index()).collect::<Vec<_>>());
+    loc.transitions += 1;
+    match r {
+      Ok(ws) => {
+        if ws.iter().any(|w| *w != want_w) {
+          ctx.violation("weekday_instant", fmt_ymd(d), format!("JulianDay::get_week at 06:00 / 12:00 / 18:00 / 23:59:59 of the day = {:?}; model (JDN {} + 1) mod 7 = {}", ws, jdn, want_w), vec!["day".to_string(), d.0.to_string(), d.1.to_string(), d.2.to_string()]);
+        }
+      }
+      Err(m) => ctx.violation("weekday_instant", fmt_ymd(d), format!("panics: {}", m), vec!["day".to_string(), d.0.to_string(), d.1.to_string(), d.2.to_string()]),
+    }
+  }
   // two more public routes to the pillar, on every fifth date
   if ord >= first_term_day && ord % 5 == 0 {
     loc.transitions += 2;
